@@ -199,6 +199,10 @@ def writer_contracts():
     add(WriterContract("write_compact_array_length", ("clen",), [("anyint",)],
                        error=lambda ctx, v: None if ctx.decide(z3.And(zint(v) >= -1, zint(v) + 1 < domains.UV5)) else TypeError))
     add(WriterContract("write_uuid", ("uuid",), [("uuid",)]))
+    add(WriterContract("write_timedelta_i32", ("td", 4), [("td", 4)]))
+    add(WriterContract("write_timedelta_i64", ("td", 8), [("td", 8)]))
+    add(WriterContract("write_datetime_i64", ("ts",), [("ts",)]))
+    add(WriterContract("write_nullable_datetime_i64", ("nts",), [("nts",)]))
     add(WriterContract("write_error_code", ("errcode",), [("errcode",)], param="error_code"))
     return C
 
@@ -446,6 +450,11 @@ def reader_contracts():
     add(ReaderContract("read_compact_array_length", ("clen",), (ValueError,)))
     add(ReaderContract("read_uuid", ("uuid",)))
     add(ReaderContract("read_error_code", ("errcode",), (ValueError,)))
+    from kio.serial.errors import OutOfBoundValue
+    add(ReaderContract("read_timedelta_i32", ("td", 4)))
+    add(ReaderContract("read_timedelta_i64", ("td", 8), (OverflowError,)))
+    add(ReaderContract("read_datetime_i64", ("ts",), (OutOfBoundValue, OverflowError, ValueError)))
+    add(ReaderContract("read_nullable_datetime_i64", ("nts",), (OutOfBoundValue, OverflowError, ValueError)))
     return R
 
 
@@ -477,6 +486,25 @@ class ZigzagDecodeContract:
         t = zint(v)
         interp.ctx.oblige("pre/_zigzag_decode", t >= 0)
         return lower(z3.If(t % 2 == 0, t / 2, -((t + 1) / 2)))
+
+
+class TzAwareFromI64Contract:
+    """tz_aware_from_i64(ms): the aware instant epoch + ms milliseconds for 0 <= ms <= max;
+    OutOfBoundValue for negative ms; OverflowError beyond the datetime range"""
+    name = "tz_aware_from_i64"
+
+    def apply(self, interp, args, kwargs):
+        from kio.serial.errors import OutOfBoundValue
+        (ts,) = _bind(args, kwargs, ("timestamp",))
+        ctx = interp.ctx
+        t = zint(ts)
+        if ctx.decide(t > domains.TS_MAX_MS):
+            raise PyRaise(OverflowError)
+        if ctx.decide(t < opaque.DT_MIN_US / 1000):
+            raise PyRaise(OverflowError)
+        if ctx.decide(t < 0):
+            raise PyRaise(OutOfBoundValue)
+        return SOpaque(z3.simplify(t * 1000), "datetime")
 
 
 class ArrayReaderContract(ReaderContract):
@@ -522,6 +550,8 @@ class Registry:
             self.by_id[id(R.read_exact)] = (R.read_exact, ReadExactContract())
         if hasattr(R, "_zigzag_decode"):
             self.by_id[id(R._zigzag_decode)] = (R._zigzag_decode, ZigzagDecodeContract())
+        if hasattr(R, "tz_aware_from_i64"):
+            self.by_id[id(R.tz_aware_from_i64)] = (R.tz_aware_from_i64, TzAwareFromI64Contract())
         if hasattr(W, "write_tagged_field"):
             self.by_id[id(W.write_tagged_field)] = (W.write_tagged_field, TaggedFieldContract(self.lookup))
         self.extra = extra
